@@ -45,6 +45,7 @@ func TestMain(m *testing.M) {
 	rec = common.New("C18", "operation histories (Put fresh value / Get / Remove) on a staged skip list vs a Go map; after every operation the String() dump is parsed and checked "+
 		"(level-0 keys strictly ascending under the trait and equal to the model key set; at every level each finger points to the next node of that height, nil at the end); "+
 		"all histories over 3 keys up to the length bound x several node-height seeds, plus seed-random long histories over <= 64 keys, for int, reversed-int, modular-order and string keys; "+
+		"plus large lists (size oscillating around e^7..e^10 and 2^10..2^14 keys, sliding windows with a new minimum/maximum per round; results compared per operation, dump audited at the turning points); "+
 		"distinct by (order, height seed, history); non-trivial = history has a Put followed later by Get/Remove/Put of the same key")
 	code := m.Run()
 	rec.Finish()
